@@ -219,3 +219,10 @@ Proof.
     + exact R.
     + apply slice_sh. exact P.
 Qed.
+
+(* two objectives: slicing on the last coordinate (hv_last, the usual HSO description) is hv *)
+Corollary hv_last_2d rx ry l :
+  hv_last [rx; ry] (map (fun xy : Q * Q => [fst xy; snd xy]) l) == hv [rx; ry] (map (fun xy => [fst xy; snd xy]) l).
+Proof.
+  unfold hv_last. cbn [rev app]. rewrite map_map. cbn [rev app]. apply hv_2d_swap.
+Qed.
